@@ -515,7 +515,7 @@ func NewFECase(g *Gen, id int) *Case {
 				continue
 			}
 			if g.R.P(20) {
-				s = Pick(g.R, []string{" ", "\t", "\n", "\r\n", " "}) + s + Pick(g.R, []string{" ", "\t", "\n", "\r", ""})
+				s = Pick(g.R, []string{" ", "\t", "\n", "\r\n", " ", "\u00a0", "\u2003 ", "\u3000", "\u200b", "\u0085"}) + s + Pick(g.R, []string{" ", "\t", "\n", "\r", "", "\u00a0\t", "\u2028", "\u200b", "\xc2"})
 			}
 			k := keys[kv.K]
 			if strings.ContainsRune(s, 0) || !strings.HasPrefix(k, "ZV_") {
@@ -524,11 +524,11 @@ func NewFECase(g *Gen, id int) *Case {
 			}
 			set = append(set, k)
 			os.Setenv(k, s)
-			env = append(env, "("+CoqStr(k)+", "+CoqStr(strings.TrimSpace(s))+")")
+			env = append(env, "("+CoqStr(k)+", "+CoqStr(s)+")") // the raw value: the model trims it itself
 			in.L = append(in.L, strV(strings.TrimSpace(s)))
 		}
 		modelIn = in
-		model = "(DProv (PEnv " + coqList(env) + "))"
+		model = "(DProv (penv_raw " + coqList(env) + "))"
 		mkData = func() any { return zenv.NewDataProvider() }
 		cleanup = func() {
 			for _, k := range set {
